@@ -118,10 +118,12 @@ Pool5 == <<IntV(1), IntV(2), Txt(<<97>>), Txt(<<65>>), Txt(<<99, 100>>), Bool(TR
 Arbitrary == UNION {[1..n -> {Pool5[i] : i \in 1..Len(Pool5)}] : n \in 1..3}
 Pool6 == {Txt(<<53>>), Txt(<<49, 48>>), Txt(<<98>>), IntV(7), Txt(<<97>>)}        \* "5" "10" "b" 7 "a"
 \* texts of every length 0..4 against criteria with adjacent wild cards
-WildTxts == {Txt(<<>>), Txt(<<97>>), Txt(<<97, 98>>), Txt(<<97, 98, 99>>), Txt(<<97, 98, 99, 100>>), Txt(<<98, 97>>), IntV(7)}
+WildTxts == {Txt(<<>>), Txt(<<97>>), Txt(<<97, 98>>), Txt(<<97, 98, 99>>), Txt(<<97, 98, 99, 100>>), Txt(<<98, 97>>), IntV(7),
+             Blank, Txt(<<101, 109, 112, 116, 121>>)}                  \* a blank, and the text "empty"
 WildVecs == UNION {[1..n -> WildTxts] : n \in 1..2} \cup {<<Txt(<<>>), Txt(<<97>>), Txt(<<97, 98>>), Txt(<<97, 98, 99>>), Txt(<<97, 98, 99, 100>>)>>}
 WildKeys == {Txt(<<97, 63, 63>>), Txt(<<63, 63>>), Txt(<<63, 42>>), Txt(<<42, 63>>), Txt(<<97, 63>>), Txt(<<97, 42>>),
-             Txt(<<42, 42>>), Txt(<<97, 126, 63>>), Txt(<<63, 98, 63>>), Txt(<<97, 63, 63, 100>>), Txt(<<63, 63, 63>>)}
+             Txt(<<42, 42>>), Txt(<<97, 126, 63>>), Txt(<<63, 98, 63>>), Txt(<<97, 63, 63, 100>>), Txt(<<63, 63, 63>>),
+             Txt(<<63, 63, 63, 63, 63>>), Txt(<<101, 42>>), Txt(<<42>>)}
 NumTextVecs == {v \in UNION {[1..n -> Pool6] : n \in 2..3} :
                   \E i \in 1..Len(v) : v[i] \in {Txt(<<53>>), Txt(<<49, 48>>)}}
 
